@@ -585,6 +585,48 @@ def gen_gap_case(rng, max_gap: int = 300, total: int = 400) -> dict:
     return {"pcode": pcode, "sched": sched, "malformed": False, "gaps": gaps}
 
 
+def gen_long_gap_case(rng, lo: int = 1500, hi: int = 3000) -> dict:
+    """A very long stretch without a report (lo..hi ticks of a running method: the clock / time / accumulator tags
+    are queued every tick, the backlog grows to many thousand entries), during which the condition registers and
+    the run state do NOT change; in the last ticks of the stretch tags change for the first time (a register, the
+    totalizer's accumulators keep moving, and usually Pause / Hold -> System State, the output forced safe).  Then a
+    report (incremental or snapshot), a few short gaps, and a second long stretch half as long."""
+    dt = 0.125
+    pcode = rng.choice([
+        "OutA\nBlock: B1\n    Wait: {w}s\n    Mark: late\n    End block\nMark: after\n",
+        "OutB\nWatch: T0 > 2\n    Mark: w\nWait: {w}s\nMark: late\nWait: 5s\n",
+        "Mark: a\nOutA\nWait: {w}s\nIncrement run counter\nMark: late\nWait: 5s\n",
+    ])
+    first = rng.randrange(lo, hi + 1)
+    gaps = [first, rng.randrange(1, 4), rng.randrange(1, 4), max(lo // 2, first // 2), rng.randrange(1, 4)]
+    pcode = pcode.format(w=max(1, int((first - rng.randrange(2, 6)) * dt)))
+    sched = []
+    tot = 0.0
+    vals = {"T0": 0, "T1": 0, "T2": 0}
+    state = "run"
+    for g in gaps:
+        long = g > 100
+        for k in range(g):
+            tail = g - k
+            hw = {}
+            if tail <= 2 or (not long and rng.random() < 0.5):
+                t = rng.choice(["T0", "T1", "T2"])
+                vals[t] = (vals[t] + rng.randrange(1, 3)) % 5
+                hw[t] = vals[t]
+            if rng.random() < 0.4:
+                tot += 0.125
+                hw["Tot"] = tot
+            user = None
+            if long and tail == 3 and rng.random() < 0.75:
+                user = {"run": rng.choice(["Pause", "Hold"]), "Pause": "Unpause", "Hold": "Unhold"}[state]
+                state = user if user in ("Pause", "Hold") else "run"
+            rep = None
+            if tail == 1:
+                rep = "snap" if rng.random() < 0.25 else "upd"
+            sched.append({"dt": dt, "hw": hw, "user": user, "report": rep})
+    return {"pcode": pcode, "sched": sched, "malformed": False, "gaps": gaps}
+
+
 def run_case(case: dict, record: bool = False, skew: float = 0.0, observe: bool = False) -> dict:
     """Run the real engine.  Returns per-report observations for the oracles.  With `record`: the operation trace
     and the canonical answers for the model.  With `record` or `observe`: `mut`, the list of
